@@ -132,7 +132,7 @@ func c16CheckRound(run *vfRun, p uint64, g int64, r uint64, kind string, nontriv
 func c16Periods() []uint64 {
 	ps := []uint64{1, 2, 3, 4, 5, 6, 7, 8, 29, 30, 31, 59, 60, 3600}
 	for k := uint(1); k <= 32; k++ {
-		for _, d := range []int64{-1, 0, 1} {
+		for _, d := range []int64{-3, -2, -1, 0, 1, 2} { // (the overflow guard counts the bits of period+1: 2^k-2 and 2^k-1 fall on different sides)
 			v := int64(1)<<k + d
 			if v >= 1 && v <= math.MaxUint32 {
 				ps = append(ps, uint64(v))
@@ -209,7 +209,13 @@ func TestVF_C16(t *testing.T) {
 	n := vfPick(300000, 5000000)
 	for i := 0; i < n; i++ {
 		var p uint64
-		switch rng.Intn(3) {
+		switch rng.Intn(4) {
+		case 3:
+			// a little below a power of two: the largest product round*period the shift guard lets through
+			p = uint64(1)<<uint(rng.Range(2, 32)) - uint64(rng.Range(2, 2000))
+			if p < 1 || p > math.MaxUint32 {
+				p = math.MaxUint32 - 1
+			}
 		case 0:
 			p = uint64(rng.Range(1, 120))
 		case 1:
@@ -226,6 +232,14 @@ func TestVF_C16(t *testing.T) {
 			c16CheckInstant(run, p, g, g+d, "random", false)
 		} else {
 			r := rng.U64() >> uint(rng.Intn(64))
+			if rng.Intn(3) == 0 {
+				// around the last schedulable round of this (period, genesis)
+				lo := new(big.Int).Sub(c16MaxOK, big.NewInt(g))
+				lo.Div(lo, new(big.Int).SetUint64(p))
+				if lo.IsUint64() {
+					r = lo.Uint64() + uint64(rng.Intn(5))
+				}
+			}
 			c16CheckRound(run, p, g, r, "random", false)
 		}
 	}
